@@ -190,6 +190,15 @@ func (*perEng) Corpus(bool) []Case {
 
 // ---------------------------------------------------------------- generator
 
+// perMarkCancelled marks about one write in ten as issued with a context that is already done.
+func perMarkCancelled(r *Rand, ops []string) {
+	for i, op := range ops {
+		if name := opName(op); (name == "create" || name == "update" || name == "destroy") && r.Chance(1, 10) {
+			ops[i] = op + " cx=1"
+		}
+	}
+}
+
 func (e *perEng) Gen(r *Rand, thorough bool, idx int) Case {
 	flav := storeFlavours[idx%len(storeFlavours)]
 	nsaware := 1
@@ -464,6 +473,10 @@ func (e *perEng) Gen(r *Rand, thorough bool, idx int) Case {
 		hdr += fmt.Sprintf(" killat=%d delayus=%d", r.Intn(len(c.Ops)), r.Intn(3000))
 	}
 
+	if idx%3 == 1 {
+		perMarkCancelled(r, c.Ops)
+	}
+
 	c.Header = hdr
 
 	return c
@@ -716,6 +729,15 @@ func perBuildRes(a Args) *TRes {
 // perStoreOp is ExecStoreOp with annotations (built and printed).
 func perStoreOp(ctx context.Context, st state.CoreState, op string, a Args) string {
 	ns, typ, id := a["ns"], a["typ"], a["id"]
+
+	if a["cx"] == "1" {
+		// the caller's context is already done when the call is made (a write issued during shutdown): the call either
+		// takes effect and reports success, or fails and has no effect — in memory AND in the backing store
+		cctx, cancel := context.WithCancel(ctx)
+		cancel()
+
+		ctx = cctx
+	}
 
 	switch op {
 	case "create":
